@@ -347,7 +347,8 @@ func (m *lexModel) progressCall(c *Ctx, in ssa.Instruction) bool {
 		if f.Parent() == m.pNext {
 			return true
 		}
-		return false
+		// a wrapper that fetches on every path (next() → nextToken(false), a closure around the lexer's NextToken)
+		return m.consumes(c, f, 0)
 	}
 	if com.IsInvoke() {
 		return false
@@ -356,12 +357,94 @@ func (m *lexModel) progressCall(c *Ctx, in ssa.Instruction) bool {
 	if n := namedOf(com.Value.Type()); n != nil && objName(n.Obj()) == "stateFn" {
 		return true
 	}
-	for _, cal := range c.Callees(ci) {
+	callees := c.Callees(ci)
+	all := len(callees) > 0
+	for _, cal := range callees {
 		if cal.Parent() == m.pNext {
 			return true
 		}
+		if !m.consumes(c, cal, 0) {
+			all = false
+		}
 	}
-	return false
+	return all
+}
+
+var consumesMemo = map[*ssa.Function]int{} // 1 yes, 2 no, 3 in progress
+
+// consumes: every path from the entry of fn to a return passes a call that consumes input (a wrapper of the
+// token or rune fetch consumes as the fetch does).
+func (m *lexModel) consumes(c *Ctx, fn *ssa.Function, depth int) bool {
+	if fn == nil || fn.Blocks == nil || depth > 4 || !c.isRepoFn(fn) {
+		return false
+	}
+	switch consumesMemo[fn] {
+	case 1:
+		return true
+	case 2, 3:
+		return false
+	}
+	consumesMemo[fn] = 3
+	// a function that also gives back what it fetched (peek = next + backup, a parser push-back) makes no net progress
+	if fn == m.peek || fn == m.acceptRun {
+		consumesMemo[fn] = 2
+		return false
+	}
+	givesBack := false
+	eachInstr(fn, func(in ssa.Instruction) {
+		if ci, isC := in.(ssa.CallInstruction); isC {
+			if f := ci.Common().StaticCallee(); f != nil {
+				switch baseName(f) {
+				case "backup", "push", "unread":
+					givesBack = true
+				}
+			}
+		}
+	})
+	if givesBack {
+		consumesMemo[fn] = 2
+		return false
+	}
+	barrier := map[*ssa.BasicBlock]bool{}
+	for _, b := range fn.Blocks {
+		for _, in := range b.Instrs {
+			ci, isC := in.(ssa.CallInstruction)
+			if !isC {
+				continue
+			}
+			if f := ci.Common().StaticCallee(); f != nil {
+				switch f {
+				case m.next, m.nextToken, m.pNext, m.pNextStmt:
+					barrier[b] = true
+				default:
+					if f != fn && m.consumes(c, f, depth+1) {
+						barrier[b] = true
+					}
+				}
+			}
+		}
+	}
+	escapes := false
+	seen := map[*ssa.BasicBlock]bool{}
+	stack := []*ssa.BasicBlock{fn.Blocks[0]}
+	for len(stack) > 0 && !escapes {
+		b := stack[len(stack)-1]
+		stack = stack[:len(stack)-1]
+		if seen[b] || barrier[b] {
+			continue
+		}
+		seen[b] = true
+		if _, isR := b.Instrs[len(b.Instrs)-1].(*ssa.Return); isR {
+			escapes = true
+		}
+		stack = append(stack, b.Succs...)
+	}
+	if escapes {
+		consumesMemo[fn] = 2
+		return false
+	}
+	consumesMemo[fn] = 1
+	return true
 }
 
 func ruleLexProgress(c *Ctx) []Obligation {
@@ -921,6 +1004,68 @@ func rulePatMode(c *Ctx) []Obligation {
 				obs = append(obs, ok(R, con, pos, "switched off again before a second token fetch or a return, on every path"))
 			} else {
 				obs = append(obs, bad(R, con, pos, leak+": escapes in later strings would be read with the pattern rule"))
+			}
+			// … and not too early: the argument of a pattern may be written as several strings joined by +; the
+			// fetch that is made under pattern mode is the fetch of the whole argument, i.e. it contains the join
+			tokText := FieldVar(m.tokenT, "Text")
+			var joinFn *ssa.Function
+			var joinIn ssa.Instruction
+			for _, f2 := range c.Funcs {
+				if f2.Blocks == nil || !c.isRepoFn(f2) {
+					continue
+				}
+				for _, s3 := range storesToField(f2, tokText) {
+					if bo, isB := s3.Val.(*ssa.BinOp); isB && bo.Op == token.ADD {
+						_, fx, _ := loadedField(bo.X)
+						_, fy, _ := loadedField(bo.Y)
+						if fx == tokText && fy == tokText {
+							joinFn, joinIn = f2, s3
+						}
+					}
+				}
+			}
+			if joinFn != nil {
+				con2 := fmt.Sprintf("%s: pattern mode stays on while the whole (possibly concatenated) argument is fetched", c.FnName(fn))
+				covered := false
+				// fetch calls between the switch-on and the switch-off
+				var resets []*ssa.Store
+				for _, s2 := range storesToField(fn, fInPat) {
+					if k, okk := s2.Val.(*ssa.Const); okk && k.Value != nil && k.Value.String() == "false" {
+						resets = append(resets, s2)
+					}
+				}
+				eachInstr(fn, func(in ssa.Instruction) {
+					ci, isC := in.(ssa.CallInstruction)
+					if !isC || !dominates(st, in) {
+						return
+					}
+					for _, r := range resets {
+						if dominates(r, in) {
+							return // after the switch-off
+						}
+					}
+					for _, cal := range c.Callees(ci) {
+						if cal == joinFn || c.Reach([]*ssa.Function{cal}, nil)[joinFn] {
+							covered = true
+						}
+					}
+				})
+				if joinFn == fn || rootFn(joinFn) == fn {
+					afterReset := false
+					for _, r := range resets {
+						if joinIn.Parent() == fn && dominates(r, joinIn) {
+							afterReset = true
+						}
+					}
+					if !afterReset {
+						covered = true
+					}
+				}
+				if covered {
+					obs = append(obs, ok(R, con2, pos, "the fetch made under pattern mode contains the join of concatenated strings"))
+				} else {
+					obs = append(obs, bad(R, con2, pos, "pattern mode is switched off before the strings that continue the argument (\"…\" + \"…\") are fetched: a regular-expression escape in a later piece of a concatenated pattern is rejected as an invalid escape"))
+				}
 			}
 		}
 	}
